@@ -51,6 +51,6 @@ MANIFEST_ENTRY = dict(
     category='other',
     engine='bounded',
     technique='sidecar contracts on the real functions: wiring / closed-form obligations from the AST discharged by z3 and the ring normaliser where the functions are within reach; bounded run-time contracts with independent oracles for the rest (never counted as proved)',
-    text='One-population spectra against the exact Kingman coalescent expectation and the closed-form selection equilibrium, first-order convergence in the time step, phi_1D continuity/finite/non-negative over the gamma grid, stationarity under further integration.',
+    text='Discharged from the real source on every run (all values, stated small shapes): closed forms of phi_1D_snm, phi_1D_genic (interior, both regimes), dispatch h=0.5 -> genic, gamma=0 -> snm incl. beta; the 1-D kernel implicit_1Dx against the shared C contracts (V with beta, M, delj, a/b/c, solve, frame, bounds); one step of one_pop (influx then kernel, dt rule); _one_pop_const_params system (n=4). Bounded run-time contracts (never counted as proved): One-population spectra against the exact Kingman coalescent expectation and the closed-form selection equilibrium, first-order convergence in the time step, phi_1D continuity/finite/non-negative over the gamma grid, stationarity under further integration.',
     note='bounded: see coverage.bounded.drivers[].bound in the evidence file for the exact domain of every driver',
 )
